@@ -210,7 +210,7 @@ def run(res, f, tier):
         m = _re.fullmatch(r"\(\?:([a-z_]+)\)", rx)
         if m:
             grammar_words.add(m.group(1))
-    res.floor("reserved words", len(reserved_words), 38)
+    res.floor("reserved words", len(reserved_words), 30)
     res.floor("keyword tokens of the grammar", len(grammar_words), 20)
     missing = sorted(grammar_words - reserved_words)
     ob(not missing, "C15|keywords-agree", "keywords of the grammar that are not reserved as function names (a function of that name could be registered but never called): %s" % missing)
@@ -254,7 +254,7 @@ def run(res, f, tier):
     ok = len(rows) == 1 and rows[0]["ret"] == "Ok(self)" and len(ap) == 1 and ap[0][1] == "self.symbols.0" and "symbols.0" in ap[0][2]
     first_wins = [c for r in rows for c in r["calls"] if any(x in c[0] for x in ("entry", "or_insert", "try_insert"))]
     ob(ok and not first_wins, "C15|with_symbols", "with_symbols must merge with BTreeMap::append semantics (later registration wins): %s" % ap)
-    res.floor("builder obligations", obligations, 15)
+    res.floor("builder obligations", obligations, 12)
     res.coverage = {
         "explanation": "MIR summaries (all paths, loops unrolled twice) of Builder::{with_rule, with_rules, with_function, with_functions, with_symbol, with_symbols, build}, "
                        "UserFunctions::{add_function, add_boxed_function}, is_valid_identifier and is_reserved_keyword were compared with the admission rules; all MIR "
